@@ -177,7 +177,7 @@ func c04Exprs(tier string) []string {
 	}
 	out = append(out,
 		"//a", "//a/b", ".//b", "descendant::a/descendant::b", "descendant::a//b", "//a//b", "//*/..", "a/b/..", "*/*", "*/@*", "//@x",
-		"a[b]", "a[1]", "*[2]", "*[last()]", "a/b[1]", "*/*[1]", "//b[1]", "//*[position() = last()]", "a[b][1]", "*[1][b]", "(//a)[2]", "(//b)[last()]", "(a | b)[1]",
+		"a[b]", "a[1]", "*[2]", "*[last()]", "a/b[1]", "*/*[1]", "//b[1]", "//*[position() = last()]", "a[b][1]", "*[1][b]", "(//a)[2]", "(//b)[last()]", "(a | b)[1]", "(//a)[b][1]", "(//*)[@x][last()]", "(//*)[1][b]", "count((//*)[@x][2])", "//*[(*)[@x][1]]",
 		"a | b", "//a | //b", "a | . | ..", "*/(a, b)", "*/(a, b)/..", "a and b", "a or b", "//a and //nosuch", "a = b", "//a = //b", "a > 1", "//@x > 1", "//b = '1'", "1 = //@x",
 		"a != b", "* = *", "count(*) + count(//a)", "sum(//@x) * 2", "//@x + 1", "-a", "a + b", "a mod 2",
 		"count(//a)", "sum(//@x)", "string(//b)", "name(*)", "local-name(//a)", "concat(a, b)", "concat(//b, '-', //@x)", "string-join(//b, ',')", "string-join(//@x, //b)",
